@@ -38,8 +38,17 @@ class Hang(Exception):
     pass
 
 
-def guarded(f, secs=3):
+_HANGS = [0]
+
+
+def guarded(f, secs=10):
+    # generous limits (a loaded machine must not turn a slow call into an alarm); after a few real hangs the verdict is
+    # clear and the remaining calls get a fraction of the time so the run still ends soon
+    if _HANGS[0] > 5:
+        secs = 0.3
+
     def on_alarm(_s, _f):
+        _HANGS[0] += 1
         raise Hang()
     old = signal.signal(signal.SIGALRM, on_alarm)
     signal.setitimer(signal.ITIMER_REAL, secs)
@@ -226,7 +235,7 @@ def context_case(rng, name):
         return parts + [""]               # contexts end with "/"
     alts = [alt() for _ in range(rng.randint(1, 2))]
     expr = "|".join("/".join(a) for a in alts)
-    r = guarded(lambda: bool(ctx.matches_context(expr)), 2)
+    r = guarded(lambda: bool(ctx.matches_context(expr)), 10)
     term = f"(Ok {b(r[1])})" if r[0] == "ok" else "(Err ErrInternal)"
     coq = (f"CContext @S@ {lst(info.ty(t) for t in stack)} {lst(lst(map(coq_string, a)) for a in alts)} {term}")
     return Case(coq=coq, desc={"case": "context", "schema": name, "stack": [t.name for t in stack], "context": expr,
